@@ -14,3 +14,9 @@ Proof.
   repeat match goal with |- context [if ?c then _ else _] => destruct c end; reflexivity.
 Qed.
 
+
+(* the two API entry points that take a tag: what they look up is the zero-padded tag (regenerated from their bodies) *)
+Lemma gen_find_fref_key_agrees x : GenTag.find_fref_key x = TagModel.zeropad x.
+Proof. unfold find_fref_key. apply gen_zeropad_agrees. Qed.
+Lemma gen_lang_key_agrees x : GenTag.lang_key x = TagModel.zeropad x.
+Proof. unfold lang_key. apply gen_zeropad_agrees. Qed.
